@@ -28,6 +28,8 @@ func runExtras(p *Program, prop, tier string, seed int) *ExtraResult {
 		<-done
 	case "C10":
 		runBounded(p, er, "quicklz", []string{"safe", "cross"}, tier, seed)
+	case "C15":
+		runBounded(p, er, "store", []string{"bucketdir"}, tier, seed)
 	case "C09":
 		done := make(chan bool)
 		go func() { runBounded(p, er, "store", []string{"crc"}, tier, seed); done <- true }()
